@@ -124,13 +124,11 @@ def run(ctx):
     for name, mod, cfg in [
         ("laws_matrix", "RefChecksLaws", "MC_RefChecksLaws_matrix.cfg"),
         ("laws_timeout", "RefChecksLaws", "MC_RefChecksLaws_timeout_quick.cfg" if q else "MC_RefChecksLaws_timeout.cfg"),
-        ("machine_near", "RefChecks", "MC_RefChecks_near.cfg"),
+        ("machine_near", "RefChecks", "MC_RefChecks_nearq.cfg" if q else "MC_RefChecks_near.cfg"),
         ("machine_timeout", "RefChecks", "MC_RefChecks_timeout_quick.cfg" if q else "MC_RefChecks_timeout.cfg"),
         ("machine_conc3", "RefChecks", "MC_RefChecks_conc3.cfg"),
     ] + ([] if q else [("machine_matrix", "RefChecks", "MC_RefChecks_matrix.cfg"),
                        ("machine_conc2", "RefChecks", "MC_RefChecks_conc.cfg")]):
-        if os.environ.get("VERIF_C12_NODESIGN"):
-            break
         res = ctx.tlc(mod, cfg, timeout=1500)
         design[name] = dict(cfg=cfg, distinct=res.distinct, generated=res.generated, wall_s=round(res.wall, 1))
     ctx.notes["design"] = design
@@ -155,6 +153,34 @@ def run(ctx):
     for sh in near_shards:
         generate("matrix-near-%d/3" % sh, "Gen_RefChecksMatrix", "Gen_RefChecksMatrix.cfg",
                  dict(VERIF_MODE="near", VERIF_SHARD=sh, VERIF_NSHARD=3, VERIF_SALT=seed))
+    # diag: E met exactly; the same lines drive the real runner (server_runner.go adds the x-expect-* headers)
+    diag = ctx.tlc("Gen_RefChecksMatrix", "Gen_RefChecksMatrix.cfg", workers=4, timeout=600,
+                   env=dict(VERIF_MODE="diag", VERIF_SHARD=0, VERIF_NSHARD=1, VERIF_SALT=seed)).json_lines("SCN ")
+    if len(diag) != 864:
+        raise vf.Machinery("diag generator printed %d scenarios, expected 864" % len(diag))
+    gen["matrix-diag"] = dict(scenarios=len(diag))
+    rep.run(diag, "matrix-diag")
+    runner_bin = ctx.go_test_bin("internal/app/connectconformance", ["c12/runner"])
+    scnp, outp = os.path.join(ctx.build, "c12.runner.scn.ndjson"), os.path.join(ctx.build, "c12.runner.out.ndjson")
+    vf.write_ndjson(scnp, diag)
+    ctx.run_harness(runner_bin, "TestVerifC12Runner", env=dict(VERIF_SCN=scnp, VERIF_OUT=outp), timeout=1200)
+    rres = vf.read_ndjson(outp)
+    rsum = [r for r in rres if r.get("summary")]
+    if not rsum or rsum[0].get("machinery"):
+        raise vf.Machinery("runner harness failed: %s" % json.dumps(rres[:2])[:600])
+    for r in rres:
+        if r.get("summary") or r.get("repro", 0) < 3:
+            continue
+        ctx.candidate(dict(source="replay", kind="runner", concerns="expect-headers", shape="-",
+                           missing=",".join(sorted(set(r["exp"]) - set(r["obs"]))),
+                           extra=",".join(sorted(set(r["obs"]) - set(r["exp"]))),
+                           differing=",".join(sorted(k for k in r["exp"] if k in r["obs"] and r["obs"][k] != r["exp"][k]))),
+                      "runTestCasesForServer adds headers %s for the expectation %s; the specification (ExpectHeaders) requires %s" % (
+                          json.dumps(r["obs"], sort_keys=True), json.dumps(r["e"], sort_keys=True), json.dumps(r["exp"], sort_keys=True)),
+                      dict(runner=r))
+    ctx.notes["runner"] = rsum[0]
+    ctx.cov["evaluations"] += rsum[0]["scenarios"]
+    ctx.cov["traces_validated_against_impl"] += rsum[0]["scenarios"]
     # slice: E of the shard x ALL A; thorough = all shards = the full 864 x 864 matrix
     nsh = 32 if q else 8
     for sh in ([seed % nsh] if q else list(range(nsh))):
@@ -178,14 +204,14 @@ def run(ctx):
     ctx.cov["distinct_nontrivial"] += rep.tot["nontrivial"]
 
     # ------------------------------------------------------------------ 5. code -> spec: recorded executions
-    n_wire, n_tmo, n_conc = (12000, 15000, 300) if q else (60000, 80000, 2000)
+    n_wire, n_tmo, n_conc, n_real = (12000, 15000, 300, 400) if q else (60000, 80000, 2000, 4000)
     chunk = 40000
     trp = os.path.join(ctx.build, "c12.trace.ndjson")
     ctx.run_harness(binp, "TestVerifC12Record", env=dict(VERIF_OUT=trp, VERIF_N_WIRE=n_wire, VERIF_N_TMO=n_tmo,
-                                                         VERIF_N_CONC=n_conc), timeout=2400)
+                                                         VERIF_N_CONC=n_conc, VERIF_N_REAL=n_real), timeout=2400)
     recs = vf.read_ndjson(trp)
-    if len(recs) != n_wire + n_tmo + n_conc:
-        raise vf.Machinery("recorder wrote %d lines, expected %d" % (len(recs), n_wire + n_tmo + n_conc))
+    if len(recs) != n_wire + n_tmo + n_conc + n_real:
+        raise vf.Machinery("recorder wrote %d lines, expected %d" % (len(recs), n_wire + n_tmo + n_conc + n_real))
     rejected = 0
     for off in range(0, len(recs), chunk):
         part = recs[off:off + chunk]
@@ -209,7 +235,7 @@ def run(ctx):
                 what = "recorded execution rejected by Trace_RefChecks: %s" % json.dumps(r, sort_keys=True)[:900]
             ctx.candidate(key, what, dict(record=r))
         os.remove(pp)
-    ctx.notes["recorded"] = dict(wire=n_wire, timeout=n_tmo, concurrent_scenarios=n_conc, rejected=rejected)
+    ctx.notes["recorded"] = dict(wire=n_wire, timeout=n_tmo, real_connections=n_real, concurrent_scenarios=n_conc, rejected=rejected)
     ctx.cov["traces_validated_against_impl"] += len(recs)
     ctx.cov["evaluations"] += len(recs)
     ctx.cov["distinct_nontrivial"] += len({json.dumps(r, sort_keys=True) for r in recs
